@@ -565,12 +565,21 @@ class Interp:
         return self.getattr(o, e.attr, e)
 
     def getattr(self, o, attr, node=None):
+        if getattr(o, "_nqsa_model", False):
+            return getattr(o, attr)  # a model object supplied by the rule (plain Python, its methods are called as they are)
         if isinstance(o, Obj):
             if o.kind == "self":
                 if attr == "_debug":
                     return self.sc.debug
                 if attr in o.fields:
                     return o.fields[attr]
+                if o.cls is not None:
+                    r = self.repo.lookup(o.cls, attr)
+                    if r is not None and any(getattr(d, "id", getattr(d, "attr", None)) == "property" for d in r[1].decorator_list):
+                        al = self.repo.property_alias(o.cls, attr)
+                        if al is not None and al in o.fields:
+                            return o.fields[al]
+                        return self.call_function(r[0].module, r[1], [], {}, self_obj=o)  # a computed property is computed
                 return ("boundmethod", o, attr)
             if o.kind in ("qubit", "future"):
                 if attr in ("_conn", "connection"):
@@ -634,11 +643,16 @@ class Interp:
     def call(self, e: ast.Call, env, m):
         fname = dotted(e.func)
         # builtins
-        if fname in ("len", "range", "list", "tuple", "int", "float", "abs", "min", "max", "sum", "enumerate", "zip", "reversed", "sorted", "str", "bool", "all", "any", "set"):
-            args = [self.eval(a, env, m) for a in e.args]
+        if fname in ("len", "range", "list", "tuple", "int", "float", "abs", "min", "max", "sum", "enumerate", "zip", "reversed", "sorted", "str", "bool", "all", "any", "set", "slice"):
+            args = []
+            for a in e.args:
+                if isinstance(a, ast.Starred):
+                    args.extend(self.eval(a.value, env, m))
+                else:
+                    args.append(self.eval(a, env, m))
             f = {"len": len, "range": lambda *a: list(range(*a)), "list": list, "tuple": tuple, "int": int, "float": float, "abs": abs, "min": min, "max": max,
                  "sum": sum, "enumerate": lambda x, *a: list(enumerate(x, *a)), "zip": lambda *a: list(zip(*a)), "reversed": lambda x: list(reversed(x)),
-                 "sorted": sorted, "str": str, "bool": bool, "all": all, "any": any, "set": set}[fname]
+                 "sorted": sorted, "str": str, "bool": bool, "all": all, "any": any, "set": set, "slice": slice}[fname]
             return f(*args)
         if fname in ("count", "itertools.count"):
             # an unbounded counter is cut off after 65 values; a search that needs more exceeds the loop bound and is reported
